@@ -209,6 +209,7 @@ class Decl:
         self.pub_fields = set()       # fields declared `pub`
         self.defaults = {}            # field name -> default value (constructor calls omit a field that has its default value)
         self.noftext = False          # no hand-made from_json texts (very large values)
+        self.explicit = set()         # indices of values whose constructor call passes every field, defaulted or not
 
     def src(self):
         s = ""
@@ -232,7 +233,7 @@ class Decl:
             dflt = ""
             if f in self.defaults:
                 dv = self.defaults[f]
-                dflt = " = " + (istr(dv) if t[0] == "str" else ("true" if dv else "false") if t[0] == "bool" else "[]" if t[0] == "list" else str(dv))
+                dflt = " = " + dexpr(t, dv)
             s += "    %s%s: %s%s\n" % ("pub " if f in self.pub_fields else "", f, ity(t), dflt)
         if self.with_method or not own:
             s += "\n    def nm(self) -> int:\n        return %d\n" % len(self.fields)
@@ -245,6 +246,24 @@ class Decl:
             parent = "(Some %d)" % i if i else "None"
             rows.append("(pair %d (pair %s %s))" % (i + 1, parent, glist(["(pair %s %s)" % (gstr(f), gty(t)) for f, t in cf])))
         return glist(rows), len(self.chain)
+
+
+def dexpr(t, dv):
+    """a declared default: literals only (no helper calls in a field declaration)"""
+    k = t[0]
+    if k == "str":
+        return istr(dv)
+    if k == "bool":
+        return "true" if dv else "false"
+    if k == "int":
+        return str(dv)
+    if k == "opt":
+        return "None" if dv is None else "Some(%s)" % dexpr(t[1], dv[1])
+    if k == "list":
+        return "[" + ", ".join(dexpr(t[1], x) for x in dv) + "]"
+    if k == "dict":
+        return "{}"                       # non-empty Dict[str,_] literals do not build (emitted with &str keys); not generated
+    return "%s(%s)" % (t[1].name, ", ".join("%s=%s" % (f, dexpr(ft, x[1])) for (f, ft), x in zip(t[1].fields, dv[2])))
 
 
 def ity(t):
@@ -447,8 +466,10 @@ def gen_decls(rng, n, tag):
                 d.pub_fields.add(fn)
         if i % 3 == 2:                  # field defaults (anywhere in the field list)
             for fn, ft in d.fields:
-                if (ft[0] in ("int", "bool", "str", "list")) and rng.random() < 0.5:
-                    d.defaults[fn] = {"int": rng.choice([0, 7, -1]), "bool": rng.random() < 0.5, "str": rng.choice(["", "x", "d\"q"]), "list": []}[ft[0]]
+                if (ft[0] in ("int", "bool", "str", "list", "opt", "dict")) and rng.random() < 0.6:
+                    d.defaults[fn] = {"int": rng.choice([0, 7, -1]), "bool": rng.random() < 0.5, "str": rng.choice(["", "x", "d\"q"]), "list": [],
+                                      "opt": None, "dict": {"__dict__": []}}[ft[0]]
+            d.explicit = {1}              # value 1 (the equal copy of value 0) is built with every field passed explicitly
         decls.append(d)
     return decls
 
@@ -520,7 +541,38 @@ def special_decls(tag):
               caps_of(["Serialize", "Deserialize", "PartialEq"]))
     cj.special = True
     cj.values = [("S", cj.name, [("x", 1), ("t", None)]), ("S", cj.name, [("x", -5), ("t", ("some", "é\""))])]
-    return [oo, ff, po, cj]
+    # a default on every field type, empty and non-empty; values at the default (field omitted / passed explicitly) and away
+    icaps = caps_of(["Serialize", "Deserialize", "Eq", "Ord", "Hash"])
+    din = Decl(tag + "DfIn", "model", ["Serialize", "Deserialize", "Eq", "Ord", "Hash"], [("a", ("int",)), ("s", ("str",))], icaps)
+    din.special = True
+    din.defaults = {"a": 3}
+    din.values = [("S", din.name, [("a", 3), ("s", "z")]), ("S", din.name, [("a", 3), ("s", "z")]), ("S", din.name, [("a", -1), ("s", "")])]
+    din.explicit = {1}
+    dcaps = caps_of(["Serialize", "Deserialize", "PartialEq"])
+    sin = ("struct", din)
+    inner_d = ("S", din.name, [("a", 1), ("s", "q")])
+    dfl = Decl(tag + "Dflt", "model", ["Serialize", "Deserialize", "PartialEq"],
+               [("name", ("str",)), ("o", ("opt", ("int",))), ("os", ("opt", ("str",))), ("xs", ("list", ("int",))), ("ys", ("list", ("int",))),
+                ("d", ("dict", ("int",))), ("inner", sin), ("oi", ("opt", sin)), ("ol", ("opt", ("list", ("int",)))), ("n", ("int",)), ("b", ("bool",))], dcaps)
+    dfl.special = True
+    dfl.defaults = {"o": None, "os": ("some", "x"), "xs": [], "ys": [1, 2], "d": {"__dict__": []}, "inner": inner_d, "oi": None,
+                    "ol": ("some", []), "n": 7, "b": True}
+    at = [("name", "n"), ("o", None), ("os", ("some", "x")), ("xs", []), ("ys", [1, 2]), ("d", {"__dict__": []}), ("inner", inner_d),
+          ("oi", None), ("ol", ("some", [])), ("n", 7), ("b", True)]
+    away = [("name", "m"), ("o", ("some", 2)), ("os", None), ("xs", [1]), ("ys", []), ("d", {"__dict__": [("k", 1)]}),
+            ("inner", ("S", din.name, [("a", 3), ("s", "")])), ("oi", ("some", inner_d)), ("ol", None), ("n", 0), ("b", False)]
+    mixed = [at[0], away[1], at[2], at[3], away[4], at[5], away[6], at[7], at[8], away[9], at[10]]
+    dfl.values = [("S", dfl.name, list(at)), ("S", dfl.name, list(at)), ("S", dfl.name, away), ("S", dfl.name, mixed)]
+    dfl.explicit = {1, 3}
+    dcl = Decl(tag + "DfCls", "class", ["Serialize", "Deserialize", "Eq"],
+               [("tags", ("list", ("str",))), ("nick", ("opt", ("str",))), ("m", ("dict", ("list", ("int",))))], caps_of(["Serialize", "Deserialize", "Eq"]))
+    dcl.special = True
+    dcl.defaults = {"tags": [], "nick": None, "m": {"__dict__": []}}
+    dcl.values = [("S", dcl.name, [("tags", []), ("nick", None), ("m", {"__dict__": []})]),
+                  ("S", dcl.name, [("tags", []), ("nick", None), ("m", {"__dict__": []})]),
+                  ("S", dcl.name, [("tags", ["a"]), ("nick", ("some", "")), ("m", {"__dict__": [("", [])]})])]
+    dcl.explicit = {1}
+    return [oo, ff, po, cj, din, dfl, dcl]
 
 
 LADDER = [0, 1, 2, 16, 17, 63, 64, 65, 255, 256, 1000]
@@ -753,7 +805,7 @@ class Prog:
         self.helpers = []
         self.nh = 0
 
-    def expr(self, t, v):
+    def expr(self, t, v, explicit=False):
         k = t[0]
         if k == "int":
             if v == I64_MIN:
@@ -782,7 +834,7 @@ class Prog:
             return name + "()"
         d = t[1]
         args = ["%s=%s" % (f, self.expr(ft, x[1])) for (f, ft), x in zip(d.fields, v[2])
-                if not (f in d.defaults and d.defaults[f] == x[1])]
+                if explicit or not (f in d.defaults and d.defaults[f] == x[1])]
         return "%s(%s)" % (d.name, ", ".join(args))
 
 
@@ -800,7 +852,7 @@ def build_program(decls, ftexts, plain=()):
     for d in decls:
         t = ("struct", d)
         for j, v in enumerate(d.values):
-            mk.append("def mk_%s_%d() -> %s:\n    return %s\n" % (d.name, j, d.name, P.expr(t, v)))
+            mk.append("def mk_%s_%d() -> %s:\n    return %s\n" % (d.name, j, d.name, P.expr(t, v, explicit=(j in d.explicit))))
         f = "def val_%s(i: int) -> %s:\n" % (d.name, d.name)
         for j in range(len(d.values) - 1):
             f += "    if i == %d:\n        return mk_%s_%d()\n" % (j, d.name, j)
@@ -950,7 +1002,11 @@ def gen_ftexts(rng, d, quick):
         k = rng.randint(0, len(j))
         texts.append(FT(dumps(Obj(j[:k] + [("zz_unknown", RawJ(extra))] + j[k:])), "unknown_field"))
         k = rng.choice(optf) if (optf and rng.random() < 0.6) else rng.randrange(len(j))
-        texts.append(FT(dumps(Obj(j[:k] + j[k + 1:])), "missing_option_field" if k in optf else "missing_required_field"))
+        texts.append(FT(dumps(Obj(j[:k] + j[k + 1:])), ("missing_defaulted_option_field" if k in optf else "missing_defaulted_field") if d.fields[k][0] in d.defaults
+                        else "missing_option_field" if k in optf else "missing_required_field"))
+        for k, (f, ft) in enumerate(d.fields):        # every defaulted key left out once: the reference is silent about reading
+            if f in d.defaults:                       # such a text; serde reads a missing Option as None and rejects the rest
+                texts.append(FT(dumps(Obj(j[:k] + j[k + 1:])), "missing_defaulted_option_field" if ft[0] == "opt" else "missing_defaulted_field"))
         k = rng.randrange(len(j))
         texts.append(FT(dumps(Obj(j + [j[k]])), "duplicate_field"))
         texts.append(FT(dumps([x for _, x in j]), "array_form"))
@@ -1119,7 +1175,9 @@ def emitted_fields(binary, scratch, name, src):
     for part in out[3:].split(";"):
         if ":" in part:
             n, fs = part.split(":", 1)
+            fs, _, attrs = fs.partition("@")
             res[n] = [x[2:] if x.startswith("r#") else x for x in fs.split(",") if x]      # raw identifiers: r#loop is the field `loop`
+            res[n + "@attrs"] = attrs
     return res, out
 
 
@@ -1159,6 +1217,15 @@ def check_field_order(chk, binary, scratch, name, decls, src, res, model_ok):
             if any(not cf for _, cf, _ in d.chain):
                 arm(res, "class_fields:level_without_fields")
         case = {"batch": name, "record": "fields %s" % d.name, "decl": d.src(), "impl": got}
+        attrs = emitted.get(d.name + "@attrs", "")
+        arm(res, "emit_struct:non_derive_attributes_" + ("present" if attrs else "none"))
+        if attrs:
+            # the model (and serde's documented behaviour the theorems rely on) knows no field/container attribute:
+            # any #[serde(..)] (rename, skip, default, flatten, ...) changes the JSON mapping
+            c3 = dict(case)
+            c3["record"] = "attrs %s" % d.name
+            c3["why"] = "the emitted struct carries attributes the model does not predict: %s" % attrs
+            fails.append(c3)
         if got != want:
             case["why"] = ("emitted struct field order %s differs from the declaration order %s (ancestors' fields root first, own fields "
                            "last): derived ordering and the JSON keys follow the emitted order" % (got, want))
@@ -1587,7 +1654,8 @@ def run(chk):
     chk.assumptions = [
         "float fields are outside every theorem (TFloat has no well-typed value); finite floats are covered by execution only, NaN/inf not at all",
         "HashMap iteration order is an oracle: the model prints dict entries in the order observed in the implementation's output",
-        "class hierarchies (extends, depth 1-5, fields at several levels, derives on the leaf) are generated; enums, newtypes, generics, traits and field defaults are not",
+        "class hierarchies and field defaults (every field type; non-empty Dict defaults excepted) are generated; enums, newtypes, generics and traits are not",
+        "reading a JSON text that omits a DEFAULTED key: the reference is silent; the model follows serde (missing Option = None, anything else = Err) and the run records it (arms decode:missing_defaulted_*), no theorem depends on it",
     ]
     tb = time.time()
     binary = vlib.build_harness("debug")
